@@ -29,6 +29,9 @@ type c19Cfg struct {
 	Threshold float64 `json:"trigger_threshold"` // expansion trigger threshold (default 0.8)
 	Growth    float64 `json:"growth_factor,omitempty"` // default 1.5
 	Inc       int     `json:"min_increment,omitempty"` // default 1
+	// Parked: the processor takes one pre-filled row and is then held inside the synchronous sink until every
+	// producer has returned, so it touches no channel while the producers fill, expand and migrate
+	Parked bool `json:"processor_parked,omitempty"`
 }
 
 func (c c19Cfg) name() string {
@@ -38,6 +41,9 @@ func (c c19Cfg) name() string {
 	}
 	if c.Growth > 0 || c.Inc > 0 {
 		n += fmt.Sprintf("-g%v-inc%d", c.Growth, c.Inc)
+	}
+	if c.Parked {
+		n += "-parked"
 	}
 	return n
 }
@@ -65,6 +71,11 @@ func c19Configs(tier string) []c19Cfg {
 		c19Cfg{Producers: 2, Rows: 2, Buf: 1, Strategy: "expand", Ceiling: 4, Growth: 2, Inc: 2},
 		c19Cfg{Producers: 1, Rows: 2, Buf: 2, Strategy: "expand", Ceiling: 8, Growth: 2, Inc: 1, Prefill: 2, Threshold: 0.5},
 		c19Cfg{Producers: 2, Rows: 2, Buf: 2, Strategy: "expand", Ceiling: 3, Growth: 1.1, Inc: 1})
+	// the processor parked in the sink: whatever the producers do to the channel among themselves, every producer's
+	// rows come out in emission order afterwards (the known hand-over finding needs the processor to receive
+	// during a migration and cannot occur here)
+	out = append(out, c19Cfg{Producers: 2, Rows: 2, Buf: 1, Strategy: "expand", Ceiling: 4, Prefill: 1, Parked: true},
+		c19Cfg{Producers: 2, Rows: 2, Buf: 2, Strategy: "expand", Ceiling: 6, Prefill: 1, Parked: true})
 	return out
 }
 
@@ -104,13 +115,21 @@ func c19Run(cfg c19Cfg) explore.RunFunc {
 				o.execErr = err.Error()
 				return
 			}
+			gate := make(chan struct{}, 1)
+			gateOpen := false
 			ssql.AddSyncSink(func(rows []map[string]any) {
 				for _, r := range rows {
 					o.processed = append(o.processed, toInt(r["id"]))
 				}
+				if cfg.Parked && !gateOpen {
+					sched.Recv(gate)
+				}
 			})
 			for j := 0; j < cfg.Prefill; j++ {
 				ssql.Emit(map[string]any{"id": 900 + j})
+			}
+			if cfg.Parked {
+				sched.Quiesce() // the processor takes the pre-filled row and parks inside the sink
 			}
 			var wg vsync.WaitGroup
 			for p := 0; p < cfg.Producers; p++ {
@@ -124,6 +143,10 @@ func c19Run(cfg c19Cfg) explore.RunFunc {
 				})
 			}
 			wg.Wait()
+			if cfg.Parked {
+				gateOpen = true
+				sched.Close(gate)
+			}
 			// let the processor's poll ticker fire (a row migrated to a new channel is only seen
 			// at the next poll), then wait for the pipeline to drain
 			vtime.Sleep(250 * vtime.Millisecond)
@@ -143,7 +166,11 @@ func c19Run(cfg c19Cfg) explore.RunFunc {
 func c19Oracle(cfg c19Cfg, res *sched.Result, o *c19Obs) *explore.Failure {
 	total := cfg.Producers*cfg.Rows + cfg.Prefill
 	fail := func(kind, what string) *explore.Failure {
-		return &explore.Failure{Signature: fmt.Sprintf("C19|%s|strategy=%s|expanded=%v", kind, cfg.Strategy, o.capEnd != int64(cfg.Buf)), What: what,
+		sig := fmt.Sprintf("C19|%s|strategy=%s|expanded=%v", kind, cfg.Strategy, o.capEnd != int64(cfg.Buf))
+		if cfg.Parked {
+			sig += "|processor-parked"
+		}
+		return &explore.Failure{Signature: sig, What: what,
 			Expected: fmt.Sprintf("processed+dropped == %d, ids distinct, per-producer order", total),
 			Observed: fmt.Sprintf("processed=%v dropped=%d input=%d cap=%d status=%s", o.processed, o.dropped, o.input, o.capEnd, res.Status)}
 	}
